@@ -12,9 +12,9 @@ sec = '''## 11. Seeded changes: which check catches which
 
 %d changes to `/repo` were written by fresh sub-agents that saw only the text of one
 property and a scratch worktree (nothing from `/verif`): two per property in a first round
-(`C<nn>-<k>`), and three more for each of eight properties in a second round in which the
-agents were told which ideas had been used already and asked for subtler ones
-(`M<nn>-<k>`, the property is C<nn>). Each was confirmed here in a scratch worktree
+(`C<nn>-<k>`), three more per property in a second and third round in which the agents
+were told which ideas had been used already and asked for subtler ones (`M<nn>-<k>`, the
+property is C<nn>), and two more per property in a fourth round (`N<nn>-<k>`). Each was confirmed here in a scratch worktree
 (`tools/evalseed.sh`): the patch applies to `/repo` HEAD and builds with and without the
 tag, the 233 baseline tests still pass with it, the agent's demonstration fails with the
 change and passes without it, and the property's quick check reports a violation against
@@ -43,13 +43,24 @@ boundary LIMIT offsets/counts; empty score bounds; mixed-case CONFIG parameter n
 executors registered after the same spelling has been requested; what a connection leaves
 behind for the *next* connection of the same server; accept-loop goroutines held at their
 very end, and connection goroutines of an earlier run released only after new clients
-have connected.
+have connected. From the third round: a reply that is still being written while other
+connections are served (slow readers, with a snapshot of the bytes handed to Write, and
+write deadlines honoured by the scripted connection); run-time configuration by a peer
+(CONFIG SET requirepass/timeout) and SetRequirePass+Restart; a second visit of a rejected
+TLS client with a session cache, dozens of failed handshakes on one server instance and
+handshake junk of every shape against a server process of its own; clients on the TLS
+port and in-memory clients that survive a restart in the race workload; clients taking
+turns and connections that have received an error reply before the contended command;
+Stop between the handler operations of a composed command; unusual SELECT indexes;
+credentials split between AUTH's two arguments; key spaces above 1024 keys; requests that
+carry no command in traced pipelines.
 
-Sixteen **behaviour-preserving** changes (refactorings, micro-optimisations,
+Seventeen **behaviour-preserving** changes (refactorings, micro-optimisations,
 data-structure swaps, renames and re-worded error texts in redis/proto, the server core,
-the executors, the example store, glob and auth) were written the same way and every quick
-check was run against each of them (`tools/evalall.sh`): see section 8 for the one false
-alarm this exposed (a timing budget in C19) and its correction.
+the executors, the example store, glob and auth; and a correct variant of the idle-timeout
+feature of seed M04-2) are kept under `seeded/benign/`; every quick check is run against
+each of them (`tools/benign.sh`): see section 8 for the one false alarm this exposed
+(a timing budget in C19) and its correction.
 
 --------------------------------------------------------------------------------------
 
